@@ -7,6 +7,7 @@ import vlib
 from vlib import coq_list
 
 from props.c01 import dup_keys, reach
+from props.c07 import env_opt_ok
 
 
 def run(ctx):
@@ -98,7 +99,11 @@ def check_one(ctx, res, seed, st, samples, distinct):
             continue
         st["name_vs_inline_values"] += 1
         distinct.add((C.rust_ty(qs[qi]), text))
-        if rr[0] != rr[1]:
+        if rr[0] != rr[1] and not env_opt_ok(res, by, qs[qi]):
+            # IS_OPTION of a bare type parameter is decided per instantiation (the known class of C07, seen through inline())
+            ctx.known_class("optional_on_bare_param", C.rust_ty(qs[qi]), dict(kind="property-violated", type=C.rust_ty(qs[qi]), json=text,
+                            by_name=rr[0], by_inline=rr[1], name=res["q"][qi]["name"], inline=res["q"][qi]["inline"], seed=seed))
+        elif rr[0] != rr[1]:
             viol.append(dict(kind="property-violated", what="a value is a member of the type by name() but not by inline() (or the reverse)",
                              type=C.rust_ty(qs[qi]), json=text, by_name=rr[0], by_inline=rr[1], name=res["q"][qi]["name"],
                              inline=res["q"][qi]["inline"], seed=seed))
